@@ -26,11 +26,16 @@ Theorem C06_only_qualifying_cycles : forall t n rows lab i, labels_cycles t n ro
 Proof. exact labels_cycles_only_qualifying. Qed.
 Print Assumptions C06_only_qualifying_cycles.
 
-(* rejected exactly when a threshold is outside [0,1], the table is empty or n < 0 *)
+(* rejected exactly when a threshold is outside [0,1], or the table is non-empty and n < 0;
+   an empty table gets an empty label column *)
 Theorem C06_rejections : forall t n rows,
-  (exists e, labels_cycles t n rows = Err e) <-> (thr_valid t = false \/ rows = [] \/ (n < 0)%Z).
+  (exists e, labels_cycles t n rows = Err e) <-> (thr_valid t = false \/ (rows <> [] /\ (n < 0)%Z)).
 Proof. exact labels_cycles_err. Qed.
 Print Assumptions C06_rejections.
+
+Theorem C06_empty_table : forall t n, thr_valid t = true -> labels_cycles t n [] = Ok [].
+Proof. exact labels_cycles_empty. Qed.
+Print Assumptions C06_empty_table.
 
 (* raising thresholds (in any way that only removes qualifying cycles) or n never adds a label *)
 Theorem C06_monotone_given_order : forall t t' n n' rows lab lab',
